@@ -205,4 +205,13 @@ def deliverUpdate (cl : Client) (hdr : Header) (now : Nat) : Except UpdErr Clien
   if !headerBasic Hv hdr then .error .invalid else updateClient Hv cl hdr now
 
 end
+
+/-- `Keeper.UpgradeClient` for a Tendermint client (governance): the new client state replaces the
+    old one and the shipped consensus state is stored at its latest height. No metadata is written
+    (no processed time, no iteration key), and every older consensus state — of earlier revisions
+    too — stays in the store, so headers of an earlier revision can still be submitted. -/
+def upgrade (cl : Client) (trustNum trustDen period drift : Nat) (h : Height) (c : Cons) : Client :=
+  { cl with trustNum := trustNum, trustDen := trustDen, period := period, drift := drift,
+            latest := h, cons := upd cl.cons h (some c) }
+
 end Tibc.TM
